@@ -101,6 +101,7 @@ Proof.
   destruct (match r, styp with Prov, TAbsent => true | _, _ => false end); [discriminate|].
   fold (exch_auth cl r c) (exch_err cl r c). destruct (exch_auth cl r c) as [k|];
     [|destruct (exch_err_shape cl r c) as [st ->]; discriminate].
+  destruct (c_exchange k) eqn:GX; cbn [negb]; [|discriminate].
   destruct (read_x g styp subj) as [[id ssub]|] eqn:RS; [|destruct req; discriminate].
   fold (actor_read g actor).
   destruct (actor_read g actor) as [[[aid asub] atyp']|] eqn:EA; [|destruct req; discriminate].
@@ -192,15 +193,16 @@ Proof.
   unfold C15_spec.promised. intro P.
   apply andb_true_iff in P as [P PV]. apply andb_true_iff in P as [P PR]. apply andb_true_iff in P as [P PA].
   apply andb_true_iff in P as [PC PS]. apply negb_true_iff in PV.
-  assert (A : exists k, exch_auth cl r c = Some k).
+  assert (A : exists k, exch_auth cl r c = Some k /\ c_exchange k = true).
   { destruct c as [|ci cs|ci cs|ci cs cf|w cf]; try discriminate;
       apply andb_true_iff in PC as [PC PM]; apply andb_true_iff in PC as [PN PC];
-      destruct (sec_ok_found _ _ _ PC) as (k & F & S); rewrite F in PM; exists k; destruct r; cbn;
+      destruct (sec_ok_found _ _ _ PC) as (k & F & S); rewrite F in PM;
+      apply andb_true_iff in PM as [GX PM]; exists k; (split; [|exact GX]); destruct r; cbn;
       try (unfold auth_exch_prov; cbn; now rewrite PC);
       unfold auth_exch_leg, verify_client_leg; cbn; rewrite PN, F;
       destruct (c_auth k) eqn:AK; try congruence; rewrite PC, AK; reflexivity. }
   clear PC.
-  destruct A as [k A].
+  destruct A as (k & A & GX).
   destruct (subj_live_read _ _ _ PS) as (id & ssub & RS & LS & _).
   assert (AR : exists aid asub atyp, actor_read g actor = Some (aid, asub, atyp) /\
             ((nonempty asub || match aid with NoId => false | _ => true end) && negb (x_live g atyp aid)) = false).
@@ -212,7 +214,7 @@ Proof.
   unfold exchange. fold (exch_auth cl r c). fold (actor_read g actor).
   assert (NA : match r, styp with Prov, TAbsent => true | _, _ => false end = false).
   { destruct r; [|reflexivity]. destruct styp; try reflexivity. discriminate. }
-  rewrite NA, A, RS, RA, LS. cbn [negb]. rewrite LA, PV.
+  rewrite NA, A, GX. cbn [negb]. rewrite RS, RA, LS. cbn [negb]. rewrite LA, PV.
   destruct req; try discriminate; repeat eexists.
 Qed.
 
@@ -264,18 +266,18 @@ Qed.
 
 Theorem spec15_model_partial : forall i, wf_input i = true -> unconfused i = true ->
   C15_spec.spec i (C15_spec.model i) = true.
-Proof. intros [cl ops] W U. exact (spec15_run_model cl W ops init U). Qed.
+Proof. intros [cl ops] W U. exact (spec15_run_model cl W (located ops) init U). Qed.
 
 Theorem spec15_model_refuted : exists i, wf_input i = true /\ C15_spec.spec i (C15_spec.model i) = false.
 Proof. exists refuting_history. split; vm_compute; reflexivity. Qed.
 
 Example spec15_model_partial_nonvacuous :
   let i := Hist refuting_clients
-    [Issue Leg "web2" "bob" ["openid"; "offline_access"];
-     Exchange Prov (Basic "web" "web-secret") (Raw (RT 2)) TRefresh
-       (Some (Jwt true true false (AT 3) "bob" "", TAccess)) TRefresh ["openid"; "drop"] ["web"];
-     Exchange Leg (Basic "web" "web-secret") (Opq (AT 5) "bob") TAccess None TId ["openid"] [];
-     Exchange Leg (Basic "web" "web-secret") (Opq (AT 5) "bob") TAccess None TJwt ["openid"] []] in
+    [(0, true, Issue Leg "web2" "bob" ["openid"; "offline_access"]);
+     (0, true, Exchange Prov (Basic "web" "web-secret") (PRaw (RT 2)) TRefresh
+       (Some (PJwt 0 true false (AT 3) "bob" "", TAccess)) TRefresh ["openid"; "drop"] ["web"]);
+     (1, true, Exchange Leg (Both "web" "web-secret" "web2") (POpq (AT 5) "bob") TAccess None TId ["openid"] []);
+     (0, true, Exchange Leg (Basic "web" "web-secret") (POpq (AT 5) "bob") TAccess None TJwt ["openid"] [])] in
   wf_input i = true /\ unconfused i = true /\
   C15_spec.path i (C15_spec.model i) <> 0 /\ C15_spec.spec i (C15_spec.model i) = true.
 Proof. vm_compute. repeat split. discriminate. Qed.
